@@ -70,6 +70,69 @@ mod verif_bounded_strings {
         }
     }
 
+    // C15 "the parsers refuse anything ambiguous or unbound: trailing bytes, a missing or non-base64 encoding tag": the content of a
+    // key-package event / welcome rumor must be exactly ONE TLS object, and no encoding tag may carry anything but a recognised value.
+    // Scope: one key package and one welcome; 1 and 3 trailing bytes; five encoding-tag combinations.
+    #[test]
+    fn trailing_bytes_and_stray_encoding_tags_are_refused() {
+        use nostr::base64::Engine;
+        use nostr::base64::engine::general_purpose::STANDARD as B64;
+        let label = "strings_bounded.trailing_bytes_and_stray_encoding_tags";
+        let mdk = create_test_mdk();
+        let keys = Keys::generate();
+        let base = create_key_package_event(&mdk, &keys);
+        let with_content = |extra: &[u8]| -> Event {
+            let mut bytes = B64.decode(&base.content).expect("base64 content");
+            bytes.extend_from_slice(extra);
+            EventBuilder::new(Kind::MlsKeyPackage, B64.encode(&bytes)).tags(base.tags.iter().cloned()).sign_with_keys(&keys).unwrap()
+        };
+        if mdk.parse_key_package(&with_content(&[])).is_err() { fail(label, "a valid key-package event re-encoded unchanged", "is refused"); }
+        for extra in [&[0u8][..], &[0xAA, 0xBB, 0xCC][..]] {
+            let scen = format!("a valid key-package event whose content carries the {} extra byte(s) {extra:?} after the key package", extra.len());
+            match catch_unwind(AssertUnwindSafe(|| mdk.parse_key_package(&with_content(extra)).is_ok())) {
+                Err(_) => fail(label, &scen, "parse_key_package PANICKED"),
+                Ok(true) => fail(label, &scen, "parse_key_package ACCEPTED the event; C15 says trailing bytes are refused"),
+                Ok(false) => {}
+            }
+        }
+        let enc = |v: &[&str]| Tag::parse(v.iter().map(|s| s.to_string()).collect::<Vec<_>>()).unwrap();
+        let enc_kind = TagKind::Custom("encoding".into());
+        let combos: Vec<(&str, Vec<Tag>, bool)> = vec![
+            ("[encoding, base64]", vec![enc(&["encoding", "base64"])], true),
+            ("[encoding, hex] then [encoding, base64]", vec![enc(&["encoding", "hex"]), enc(&["encoding", "base64"])], false),
+            ("[encoding, base64] then [encoding, hex]", vec![enc(&["encoding", "base64"]), enc(&["encoding", "hex"])], false),
+            ("[encoding] (no value) then [encoding, base64]", vec![enc(&["encoding"]), enc(&["encoding", "base64"])], false),
+            ("[encoding, hex]", vec![enc(&["encoding", "hex"])], false),
+            ("no encoding tag", vec![], false),
+        ];
+        for (name, tags, want_ok) in combos {
+            let ev = rebuilt(&base, &keys, &enc_kind, tags);
+            let scen = format!("a valid key-package event whose encoding tags are: {name}");
+            match catch_unwind(AssertUnwindSafe(|| mdk.parse_key_package(&ev).is_ok())) {
+                Err(_) => fail(label, &scen, "parse_key_package PANICKED"),
+                Ok(ok) if ok != want_ok => fail(label, &scen, &format!("parse_key_package accepted = {ok}; C15 (a missing or non-base64 encoding tag is refused) says {want_ok}")),
+                Ok(_) => {}
+            }
+        }
+        // the welcome rumor: its content must be exactly one MLS message
+        let (alice, bob) = (create_test_mdk(), create_test_mdk());
+        let (ak, bk) = (Keys::generate(), Keys::generate());
+        let res = alice.create_group(&ak.public_key(), vec![create_key_package_event(&bob, &bk)], create_nostr_group_config_data(vec![ak.public_key()])).unwrap();
+        let rumor = res.welcome_rumors[0].clone();
+        for extra in [&[][..], &[0u8][..], &[0xAA, 0xBB, 0xCC][..]] {
+            let mut bytes = B64.decode(&rumor.content).expect("base64 welcome");
+            bytes.extend_from_slice(extra);
+            let mut r = rumor.clone(); r.content = B64.encode(&bytes); r.id = None; r.ensure_id();
+            let scen = format!("a valid welcome rumor whose content carries {} extra byte(s) after the MLS message", extra.len());
+            let wrapper = nostr::EventId::from_slice(&[extra.len() as u8 + 1; 32]).unwrap();
+            match catch_unwind(AssertUnwindSafe(|| bob.process_welcome(&wrapper, &r).is_ok())) {
+                Err(_) => fail(label, &scen, "process_welcome PANICKED"),
+                Ok(ok) if ok != extra.is_empty() => fail(label, &scen, &format!("process_welcome accepted = {ok}; C15 says {}", extra.is_empty())),
+                Ok(_) => {}
+            }
+        }
+    }
+
     // C15 / C17: what create_imeta_tag writes, parse_imeta_tag reads back. Scope: the file names / MIME spellings below.
     #[cfg(feature = "mip04")]
     #[test]
@@ -107,6 +170,29 @@ mod verif_bounded_strings {
                 }
             }
         } }
+        // C17 "round-trips for all payloads": payload lengths around the block / tag sizes, 0 included (an empty file encrypts to the bare
+        // 16-byte tag); a flipped byte of the upload is refused
+        for len in [0usize, 1, 15, 16, 17, 31, 32, 33, 64, 1000] {
+            let payload: Vec<u8> = (0..len).map(|i| (i * 7 + 3) as u8).collect();
+            let scen = format!("a text/plain file of {len} byte(s)");
+            let upload = match catch_unwind(AssertUnwindSafe(|| mgr.encrypt_for_upload(&payload, "text/plain", "f.txt"))) {
+                Err(_) => fail(label, &scen, "encrypt_for_upload PANICKED"),
+                Ok(Err(_)) => continue, // refused by the documented validation: nothing to round-trip
+                Ok(Ok(u)) => u,
+            };
+            let reference = mgr.create_media_reference(&upload, "https://blossom.example/f".to_string());
+            match catch_unwind(AssertUnwindSafe(|| mgr.decrypt_from_download(&upload.encrypted_data, &reference))) {
+                Err(_) => fail(label, &scen, "decrypt_from_download PANICKED"),
+                Ok(Ok(d)) if d == payload => {}
+                Ok(other) => fail(label, &scen, &format!("an upload accepted by encrypt_for_upload does not decrypt back to the file: {:?}", other.map(|d| d.len()))),
+            }
+            let mut bad = upload.encrypted_data.clone(); let last = bad.len() - 1; bad[last] ^= 1;
+            match catch_unwind(AssertUnwindSafe(|| mgr.decrypt_from_download(&bad, &reference))) {
+                Err(_) => fail(label, &scen, "decrypt_from_download PANICKED on a tampered upload"),
+                Ok(Ok(_)) => fail(label, &scen, "a tampered upload (last byte flipped) decrypts"),
+                Ok(Err(_)) => {}
+            }
+        }
     }
     // C06 / C15: the decoder of the group-data extension never panics and accepts exactly the documented field lengths. This function IS
     // under contract (unit ext_codec); the bounded run is a second line for changes the contract unit cannot type-check (it models the four
